@@ -322,6 +322,7 @@ func runPair(c *hx.Ctx, cfg gc.Cfg, p pairSpec) {
 		}
 		oldParts, haveOld = gc.LibPartsStr(t.Partitions), true
 	}
+	staleParts, haveStale := oldParts, haveOld // the table on the disk BEFORE the interrupted write: its primary header may survive as a stale, still valid header
 	if p.pre != nil {
 		// an earlier Write of pre.table was cut at (k, subset fi): that crash state is the old disk
 		dp := d1.Clone()
@@ -471,9 +472,18 @@ func runPair(c *hx.Ctx, cfg gc.Cfg, p pairSpec) {
 			states++
 			okG := g == 'N' || g == 'n' || (haveOld && (g == 'O' || g == 'o')) || (!haveOld && g == 'E')
 			okP := q == 'N' || q == 'n' || (haveOld && (q == 'O' || q == 'o')) || (!haveOld && !haveMbr && q == 'E') || (haveMbr && q == 'M')
+			// gpt-rewrite-over-degraded-primary, second face: with the primary array in flight the stale primary header (of the
+			// table that was there before the interrupted write) validates again when the persisted sectors of the new array equal
+			// that table's: the disk reads, from the primary, as that third table (theorem degraded_other_table_resurrects_stale_primary)
+			resurrected := false
+			if !okG && g == 'X' && p.degraded && curStage == 2 && haveStale && p.pre != nil {
+				if t, err := gpt.Read(d, lss, lss); err == nil && !t.RecoveredFromBackup && gc.LibPartsStr(t.Partitions) == staleParts {
+					resurrected = true
+				}
+			}
 			if !okG {
 				bad++
-				if !(p.okStages[curStage] && g == 'E') {
+				if !(p.okStages[curStage] && g == 'E') && !resurrected {
 					unexplained++
 				}
 				if firstBad == "" {
@@ -485,7 +495,7 @@ func runPair(c *hx.Ctx, cfg gc.Cfg, p pairSpec) {
 					pmbrWindow++
 				} else {
 					bad++
-					if !(p.okStages[curStage] && !okG && g == 'E') {
+					if !(p.okStages[curStage] && !okG && g == 'E') && !resurrected {
 						unexplained++
 					}
 					if firstBad == "" {
@@ -581,7 +591,7 @@ func runPair(c *hx.Ctx, cfg gc.Cfg, p pairSpec) {
 	c.Stat(fmt.Sprintf("lss=%d", lss))
 	switch {
 	case p.finding != "" && bad > 0 && unexplained == 0:
-		c.Fail(p.id, p.finding, fmt.Sprintf("%d of %d crash states read as an error instead of old or new; first: %s", bad, states, firstBad), p.desc)
+		c.Fail(p.id, p.finding, fmt.Sprintf("%d of %d crash states read as an error (or, through a stale primary header that validates again, as the table before the interrupted write) instead of old or new; first: %s", bad, states, firstBad), p.desc)
 	case bad > 0 && collBad > 0:
 		c.Note("%s: %d crash states fail but the pair violates the NoCrcCollision hypothesis (%d mixtures collide); not counted", p.id, bad, collBad)
 		c.OK(p.id)
